@@ -370,7 +370,7 @@ class CSSSerializer:
             return actual
 
     def _linenumnbers(self, text):
-        if self.prefs.lineNumbers:
+        if self.prefs.lineNumbers and self.prefs.lineSeparator:
             pad = len(str(text.count(self.prefs.lineSeparator) + 1))
             out = []
             for i, line in enumerate(text.split(self.prefs.lineSeparator)):
